@@ -90,6 +90,12 @@ func (h *fetchHooks) OnFetchRecordUnbuffered(r *kgo.Record, polled bool) {
 	h.st.s.UserCode()
 }
 
+// OnFetchBatchRead runs inside the processing of a fetch response, after it
+// arrived and before it is buffered: application code there takes time.
+func (h *fetchHooks) OnFetchBatchRead(kgo.BrokerMetadata, string, int32, kgo.FetchBatchMetrics) {
+	h.st.s.UserCode()
+}
+
 const selRegex = `^in-.*`
 const selExclude = `^in-skip.*`
 
